@@ -15,6 +15,12 @@ func ShouldIncludeNode(directives []*Directive) (bool, error) {
 	skipDirective := findDirectiveWithName(directives, SKIP)
 	if skipDirective != nil {
 		b, err := parseIf(skipDirective)
+		if err == nil && !b {
+			// Not skipped: an @include on the same node still has to allow it.
+			if includeDirective := findDirectiveWithName(directives, INCLUDE); includeDirective != nil {
+				return parseIf(includeDirective)
+			}
+		}
 		return !b, err
 	}
 
